@@ -31,7 +31,62 @@ def suite(wt):
     return rc, passed, failed, out
 
 
+def recheck(sid, checks):
+    """re-run checks against an already confirmed and stored seeded change (seeded/<sid>/patch.diff)"""
+    dst = os.path.join(VERIF, "seeded", sid)
+    meta = json.load(open(os.path.join(dst, "meta.json")))
+    prop = meta["property"]
+    if not checks:
+        checks = [prop]
+    rc, out = sh("git status --porcelain --untracked-files=no", REPO)
+    if out.strip():
+        print("/repo is not clean:", out)
+        return 2
+    rc, out = sh("git apply --whitespace=nowarn %s" % os.path.join(dst, "patch.diff"), REPO)
+    if rc != 0:
+        print("patch does not apply to /repo:", out)
+        return 2
+    results = meta.get("checks_run", {})
+    try:
+        run_checks(checks, dst, results)
+    finally:
+        sh("git checkout -- .", REPO)
+    meta["checks_run"] = results
+    meta["detected_by"] = sorted(k for k, v in results.items() if v["exit"] == 1 and v["violations"] > 0)
+    json.dump(meta, open(os.path.join(dst, "meta.json"), "w"), indent=1)
+    return 0
+
+
+def run_checks(checks, dst, results):
+    for c in checks:
+        tier = "quick"
+        if ":" in c:
+            c, tier = c.split(":")
+        t0 = time.time()
+        ev = os.path.join(VERIF, "evidence", "%s.json" % c)
+        ev_bak = ev + ".seedbak"
+        if os.path.exists(ev):
+            shutil.copy(ev, ev_bak)
+        before = set(os.listdir(os.path.join(VERIF, "replays")))
+        p = subprocess.run(["./vcheck", c, "--tier", tier], cwd=VERIF, capture_output=True, text=True, env=ENV)
+        lines = [l for l in p.stdout.split("\n") if l.startswith("VIOLATION")]
+        new = sorted(set(os.listdir(os.path.join(VERIF, "replays"))) - before)
+        for f in new:          # replays of seeded runs are not evidence of the unchanged tree
+            os.makedirs(os.path.join(dst, "replays"), exist_ok=True)
+            os.replace(os.path.join(VERIF, "replays", f), os.path.join(dst, "replays", f))
+        for f in sorted(os.listdir(os.path.join(dst, "replays")))[3:] if os.path.isdir(os.path.join(dst, "replays")) else []:
+            os.remove(os.path.join(dst, "replays", f))
+        if os.path.exists(ev_bak):
+            os.replace(ev_bak, ev)
+        results["%s:%s" % (c, tier)] = {"exit": p.returncode, "violations": len(lines), "first": (lines[0][:400] if lines else ""),
+                                        "no_failing_input": sum(1 for l in lines if l.rstrip().endswith("no-failing-input-found")),
+                                        "wall_s": round(time.time() - t0)}
+        print(c, tier, results["%s:%s" % (c, tier)])
+
+
 def main():
+    if sys.argv[1] == "--recheck":
+        return recheck(sys.argv[2], sys.argv[3:])
     wt, x = sys.argv[1], sys.argv[2]
     checks = sys.argv[3:]
     mdir = os.path.join(wt, "MUT", x)
@@ -70,6 +125,11 @@ def main():
         log["demo_failure_excerpt"] = "\n".join([l for l in out.split("\n") if "panicked" in l or "assert" in l or "left:" in l or "right:" in l][:8])
         os.rename(demo_abs, demo_abs + ".off")
         rc, passed, failed, out = suite(wt)
+        if rc != 0 and failed <= 2:
+            # generator/tests/generator.rs runs `cargo fmt --all` from two tests concurrently and is flaky: once more
+            log["suite_first_attempt"] = {"exit": rc, "passed": passed, "failed": failed,
+                                          "failed_tests": re.findall(r"^test (\S+) \.\.\. FAILED", out, re.M)[:5]}
+            rc, passed, failed, out = suite(wt)
         os.rename(demo_abs + ".off", demo_abs)
         log["suite_with_change"] = {"exit": rc, "passed": passed, "failed": failed}
         sh("git checkout -- main generator derive", wt)
@@ -85,7 +145,7 @@ def main():
         print("NOT CONFIRMED; not kept")
         return 1
     # --- keep
-    sid = "%s-%s" % (prop, x)
+    sid = "%s-%s%s" % (prop, x, os.environ.get("SEED_ROUND", ""))
     dst = os.path.join(VERIF, "seeded", sid)
     os.makedirs(dst, exist_ok=True)
     shutil.copy(patch, os.path.join(dst, "patch.diff"))
@@ -105,30 +165,7 @@ def main():
         return 2
     results = meta.get("checks_run", {})
     try:
-        for c in checks:
-            tier = "quick"
-            if ":" in c:
-                c, tier = c.split(":")
-            t0 = time.time()
-            ev = os.path.join(VERIF, "evidence", "%s.json" % c)
-            ev_bak = ev + ".seedbak"
-            if os.path.exists(ev):
-                shutil.copy(ev, ev_bak)
-            before = set(os.listdir(os.path.join(VERIF, "replays")))
-            p = subprocess.run(["./vcheck", c, "--tier", tier], cwd=VERIF, capture_output=True, text=True, env=ENV)
-            lines = [l for l in p.stdout.split("\n") if l.startswith("VIOLATION")]
-            new = sorted(set(os.listdir(os.path.join(VERIF, "replays"))) - before)
-            for f in new:          # replays of seeded runs are not evidence of the unchanged tree
-                os.makedirs(os.path.join(dst, "replays"), exist_ok=True)
-                os.replace(os.path.join(VERIF, "replays", f), os.path.join(dst, "replays", f))
-            for f in sorted(os.listdir(os.path.join(dst, "replays")))[3:] if os.path.isdir(os.path.join(dst, "replays")) else []:
-                os.remove(os.path.join(dst, "replays", f))
-            if os.path.exists(ev_bak):
-                os.replace(ev_bak, ev)
-            results["%s:%s" % (c, tier)] = {"exit": p.returncode, "violations": len(lines), "first": (lines[0][:400] if lines else ""),
-                                            "no_failing_input": sum(1 for l in lines if l.rstrip().endswith("no-failing-input-found")),
-                                            "wall_s": round(time.time() - t0)}
-            print(c, tier, results["%s:%s" % (c, tier)])
+        run_checks(checks, dst, results)
     finally:
         sh("git checkout -- .", REPO)
     meta["checks_run"] = results
